@@ -45,7 +45,10 @@ _defs_cache: dict = {}
 
 
 def _local_defs(fi: FuncInfo):
-    d = _defs_cache.get(id(fi.node))
+    # cached on the FuncInfo itself: a module-level dict keyed by id(node)
+    # would serve stale entries once a tree is freed and its ids are reused
+    # (worker processes analyse many overlays one after the other)
+    d = getattr(fi, "_local_defs_cache", None)
     if d is None:
         d = {}
         for n in own_nodes(fi.node):
@@ -55,13 +58,18 @@ def _local_defs(fi: FuncInfo):
                         d.setdefault(t.id, []).append(n.value)
             elif isinstance(n, ast.AnnAssign) and isinstance(n.target, ast.Name) and n.value is not None:
                 d.setdefault(n.target.id, []).append(n.value)
+            elif isinstance(n, ast.NamedExpr) and isinstance(n.target, ast.Name):
+                d.setdefault(n.target.id, []).append(n.value)
             elif isinstance(n, ast.AugAssign) and isinstance(n.target, ast.Name):
                 d.setdefault(n.target.id, []).append(None)
             elif isinstance(n, (ast.For, ast.comprehension)):
                 for x in ast.walk(n.target):
                     if isinstance(x, ast.Name):
                         d.setdefault(x.id, []).append(None)
-        _defs_cache[id(fi.node)] = d
+        try:
+            fi._local_defs_cache = d
+        except AttributeError:
+            pass
     return d
 
 
@@ -93,7 +101,10 @@ def is_empty_list(node: ast.AST | None) -> bool:
 
 
 def cached_methods(ctx, disp: ClassInfo) -> list[FuncInfo]:
-    return [m for m in disp.methods.values() if "_dispatcher_cache" in m.decorators]
+    from .roles import dispatcher_roles
+
+    names = set(dispatcher_roles(ctx)["cache_decorators"])
+    return [m for m in disp.methods.values() if names & set(m.decorators)]
 
 
 def is_notify(ctx, ev: Event, names=("update", "reset")) -> bool:
@@ -448,3 +459,33 @@ def one_shot_captures(ctx, rule, scope, why) -> int:
                     )
                     break
     return n_closures
+
+
+# --------------------------------------------------------------------------
+def step_of(ctx, fi, stmt, target_text: str):
+    """+k / -k when ``stmt`` advances ``target_text`` (e.g. ``self._count``)
+    by the integer constant k - as ``t += k``, ``t -= k`` or ``t = <old> + k``
+    with <old> an alias-expanded read of t; None otherwise."""
+    def const(e):
+        if isinstance(e, ast.Constant) and isinstance(e.value, int) and not isinstance(e.value, bool):
+            return e.value
+        return None
+
+    if isinstance(stmt, ast.AugAssign) and ast.unparse(stmt.target) == target_text:
+        k = const(stmt.value)
+        if k is None:
+            return None
+        if isinstance(stmt.op, ast.Add):
+            return k
+        if isinstance(stmt.op, ast.Sub):
+            return -k
+        return None
+    if isinstance(stmt, ast.Assign) and len(stmt.targets) == 1 and ast.unparse(stmt.targets[0]) == target_text:
+        v = ctx.norm.xexpr(fi, stmt.value)
+        if isinstance(v, ast.BinOp) and isinstance(v.op, (ast.Add, ast.Sub)):
+            l, r = ast.unparse(v.left), ast.unparse(v.right)
+            if l == target_text and const(v.right) is not None:
+                return const(v.right) if isinstance(v.op, ast.Add) else -const(v.right)
+            if r == target_text and const(v.left) is not None and isinstance(v.op, ast.Add):
+                return const(v.left)
+    return None
